@@ -1,6 +1,7 @@
 import LapyVerif.Props.C12
 import LapyVerif.Model.Refine
 import LapyVerif.Model.TetTopo
+import LapyVerif.Bridge.TetOrient
 /- axiom audit of C12 (`TetMesh.is_oriented`, `orient_`, `boundary_tria`) -/
 #print axioms LapyVerif.Props.C12.isOriented_nil
 #print axioms LapyVerif.Props.C12.isOriented_iff
@@ -32,3 +33,8 @@ import LapyVerif.Model.TetTopo
 #print axioms LapyVerif.Props.C12.bnd_closed
 #print axioms LapyVerif.Props.C12.ts2_oriented
 #print axioms LapyVerif.Props.C12.ts2_boundary
+#print axioms LapyVerif.Bridge.tet_vols
+#print axioms LapyVerif.Bridge.tet_pc
+#print axioms LapyVerif.Bridge.tet_orient
+#print axioms LapyVerif.Bridge.tet_is_oriented_facts
+#print axioms LapyVerif.Bridge.census_TetOrient_pcOrientCount
